@@ -3,6 +3,7 @@ from __future__ import annotations
 
 import atexit
 import itertools
+import pickle
 import shutil
 import tempfile
 from collections import Counter
@@ -13,7 +14,8 @@ from vsym import triggers
 from vsym.pathex import And, Eq, Or
 from vsym.runner import Ob
 
-ORDER = ["dup1.py", "dup2.py", "strg1.py", "strg2.py", "a_tokenizer.py", "b_scanner.py", "nest.py", "magic.ts", "printy.js", "unwrap.rs", "square.ts", "cube.rs"] + \
+ORDER = ["dup1.py", "dup2.py", "strg1.py", "strg2.py", "a_tokenizer.py", "b_scanner.py", "nest.py", "magic.ts", "printy.js", "unwrap.rs", "square.ts", "cube.rs",
+         "nest3.ts", "nest3.rs", "wide.py", "wide.ts"] + \
     ["extra%02d.py" % i for i in range(26)]
 _P = {}
 
@@ -29,6 +31,11 @@ def _proj():
         # a pair whose findings depend on state an analyzer might carry from file to file (a worker starts clean)
         (Path(d) / "src" / "a_tokenizer.py").write_text("import re as rx\n\n\nWORD = rx.compile('a+')\n\n\ndef words(text):\n    return WORD.findall(text)\n")
         (Path(d) / "src" / "b_scanner.py").write_text("import regex as rx\n\n\ndef scan(items):\n    out = []\n    for it in items:\n        if rx.search('a+', it):\n            out.append(it)\n    return out\n")
+        # depth 3 / five methods: reported or not depending on WHICH language's threshold is applied
+        (Path(d) / "src" / "nest3.ts").write_text("function walk(xs: number[][]): number {\n  let t = 0;\n  for (const row of xs) {\n    for (const x of row) {\n      if (x) {\n        t += x;\n      }\n    }\n  }\n  return t;\n}\n")
+        (Path(d) / "src" / "nest3.rs").write_text("fn walk(xs: &[Vec<i64>]) -> i64 {\n    let mut t = 0;\n    for row in xs {\n        for x in row {\n            if *x > 0 {\n                t += x;\n            }\n        }\n    }\n    t\n}\n")
+        (Path(d) / "src" / "wide.py").write_text("class Wide:\n" + "".join("    def m%d(self):\n        return %d\n\n" % (i, i) for i in range(5)))
+        (Path(d) / "src" / "wide.ts").write_text("class WideT {\n" + "".join("  m%d() {\n    return %d;\n  }\n" % (i, i) for i in range(5)) + "}\n")
         for i in range(26):   # cheap per-file findings, every file different
             (Path(d) / "src" / ("extra%02d.py" % i)).write_text(
                 "def price%d(q):\n    print(q)\n    return q * %d\n" % (i, 7001 + i))
@@ -52,7 +59,8 @@ class InProcessExecutor:
     def submit(self, fn, *a):
         f = Future()
         try:
-            f.set_result(fn(*a))
+            # as in a real pool, the arguments reach the worker as a pickled copy and the result comes back as one
+            f.set_result(pickle.loads(pickle.dumps(fn(*pickle.loads(pickle.dumps(a))))))
         except Exception as e:  # noqa
             f.set_exception(e)
         return f
@@ -165,6 +173,10 @@ CONFIGS = {
     "invalid-magic-limit-in-project-config": ("magic-numbers:\n  max_small_integer: -3\n", None),
     "explicit-config-with-ignore-list": ("dry:\n  enabled: true\n", "ignore:\n  - 'src/extra0*.py'\n  - 'src/dup1.py'\ndry:\n  enabled: true\n"),
     "explicit-config-invalid-threshold": ("dry:\n  enabled: true\n", "nesting:\n  max_nesting_depth: -1\n"),
+    "language-sections-python-stricter": ("nesting:\n  max_nesting_depth: 4\n  python:\n    max_nesting_depth: 2\nsrp:\n  max_methods: 7\n  python:\n    max_methods: 3\n"
+                                          "magic-numbers:\n  max_small_integer: 10\n  python:\n    allowed_numbers: [7001, 7002]\n", None),
+    "language-sections-typescript-stricter": ("nesting:\n  max_nesting_depth: 4\n  typescript:\n    max_nesting_depth: 2\n  rust:\n    max_nesting_depth: 9\n"
+                                              "srp:\n  max_methods: 7\n  typescript:\n    max_methods: 3\n", None),
     "project-ignore-list": ("ignore:\n  - 'src/extra1*.py'\n  - 'src/strg2.py'\ndry:\n  enabled: true\n", None),
 }
 
@@ -178,7 +190,7 @@ def h_cli_configs(ctx):
     from click.testing import CliRunner
     from src.cli_main import cli
     cfg = ctx.pick("configuration", tuple(CONFIGS))
-    cmd = ctx.pick("command", ("nesting", "magic-numbers", "dry", "improper-logging", "stringly-typed"))
+    cmd = ctx.pick("command", ("nesting", "magic-numbers", "dry", "improper-logging", "stringly-typed", "srp"))
     cpu = ctx.pick("cpu_count", (2, 16))
     src = _proj()
     d = Path(tempfile.mkdtemp(prefix="c07cfg-"))
